@@ -17,7 +17,7 @@ META = {"engine": "A floscript", "technique": "fault injection at enumerated cra
 
 FEATS = [
     dict(nframers=(2, 3), nframes=(2, 5), p_bids=0.3, p_stop_bid_mid=0.6, p_inactive=0.25, ticks=(5, 10), nplan=(1, 4), order=True,
-         p_period=0.2),
+         p_period=0.2, p_done_main=0.3),
     dict(nframers=(2, 3), nframes=(2, 4), p_bids=0.2, p_stop_bid_mid=0.4, p_aux=0.4, naux=(1, 2), ticks=(5, 9), nplan=(1, 3)),
     dict(nframers=(1, 2), nframes=(2, 4), nslaves=(1, 1), p_fiat=0.6, p_bids=0.2, ticks=(5, 9), nplan=(1, 3), p_stop_bid_mid=0.3),
 ]
